@@ -12,14 +12,14 @@ import (
 )
 
 type FuncResult struct {
-	Name     string
-	Fn       *ssa.Function
-	Con      *Contract
-	VC       *VC
-	Obls     []*Obl
-	Rounds   int
-	Millis   int64
-	Dropped  []string // auto invariant candidates dropped
+	Name    string
+	Fn      *ssa.Function
+	Con     *Contract
+	VC      *VC
+	Obls    []*Obl
+	Rounds  int
+	Millis  int64
+	Dropped []string // auto invariant candidates dropped
 }
 
 // verifyFunc runs VC generation + Houdini pruning of automatic invariant candidates + solving.
@@ -170,7 +170,7 @@ func main() {
 			defer os.RemoveAll(d)
 		}
 	}
-	opts := SolveOpts{WorkDir: *work, QuickMs: 4000, SingleMs: 10000, KeepFiles: *keep}
+	opts := SolveOpts{WorkDir: *work, QuickMs: 4000, SingleMs: 30000, KeepFiles: *keep}
 	switch cmd {
 	case "func":
 		eng, err := loadEngine(*repo)
@@ -229,4 +229,3 @@ func (eng *Engine) findLemmaByPattern(p string) *Contract {
 	}
 	return nil
 }
-
